@@ -1,11 +1,12 @@
 (* Extraction of the network models for ocaml/net/driver.ml.  ExtrOcamlBasic only. *)
-From AQ Require Import Lib.Bytes Lib.ExtractBase Lib.Keccak Rlp.RlpSpec Net.Frame Net.FrameIO Net.Discover Net.Limits Net.Handshake Net.Messages Net.ProtoHs.
+From AQ Require Import Lib.Bytes Lib.ExtractBase Lib.Keccak Rlp.RlpSpec Net.Frame Net.FrameIO Net.Discover Net.Limits Net.Handshake Net.Messages Net.ProtoHs Net.DiscState.
 Require Extraction.
 Require Import ExtrOcamlBasic.
 Extraction "../ocaml/net/model.ml" base_anchor keccak256
   write_msg read_msg read_msg_io write_all read_n snappy_declen frame_buf_size max_uint24
   encode_packet decode_packet encode_msg dec_msg expired
   read_handshake_msg auth_body_ok ack_body_ok enc_auth_msg_len enc_auth_resp_len receiver_handshake read_protocol_handshake
+  step d_init has_bond run
   handshake_outcomes handle_decode fetch_limit mark_known max_known_txs max_known_blocks
   handle_gate serve headers_served deliver_rule headers_fill_rule serve_headers disc_reason disc_reason_named
   protocol_max_msg_size soft_response_limit est_header_rlp_size max_block_fetch
